@@ -5,11 +5,35 @@ from checks.storegen import World, Ent, PLAIN, TYPES
 ID = 'C19'
 FLAVOUR = {'quick': 'plain', 'thorough': 'asan'}
 LEAN_MODULES = ['NixModel.Props.C19']
-THEOREMS = []
-RULE = ''
-TRUSTED = []
-ASSUMPTIONS = []
-
+THEOREMS = ['Nix.C19.validator_sound', 'Nix.C19.validator_sound_conforming', 'Nix.C19.validator_complete', 'Nix.C19.validator_complete_count',
+            'Nix.C19.complete_rank', 'Nix.C19.complete_ticks', 'Nix.C19.complete_labels', 'Nix.C19.complete_rows', 'Nix.C19.complete_unsorted',
+            'Nix.C19.complete_interval', 'Nix.C19.complete_tag_units', 'Nix.C19.complete_positions', 'Nix.C19.complete_feature_data',
+            'Nix.C19.soft_rules_only_warn', 'Nix.C19.soft_breach_is_warned', 'Nix.C19.soft_breach_count', 'Nix.C19.warning_only_for_soft_breach',
+            'Nix.C19.holds', 'Nix.C19.unsorted_iff',
+            'Nix.Validate.validateFile_errors', 'Nix.Validate.validateFile_warnings', 'Nix.Validate.tagUnitsMatchRefsUnits_eq',
+            'Nix.Validate.dimsLoop_true', 'Nix.Validate.dimsLoop_false', 'Nix.Validate.isSorted_eq_not_unsorted']
+RULE = ('files built through the public API to conform to every rule by construction (1-3 blocks; arrays of rank 1-3 with range / sampled / set / '
+        'data-frame descriptors of matching length, unit families per dimension position; tags and multi-tags with 0-3 references and units '
+        'convertible to every referenced dimension; features; nested sources; nested sections with properties; groups, metadata links), then '
+        '0-3 soft breaches (non-SI array unit, coefficients without origin and vice versa, offset without unit, values without unit) and 0-7 hard '
+        'breaches at random entities, through the API where it allows (extra / missing descriptor, data extent or tick / label / row count changed, '
+        'tag units of another dimension, empty position, property unit) and with raw HDF5 on the open file where it does not (unsorted ticks, '
+        'sampling interval 0 / -0 / negative / NaN / deleted, positions link or feature data link deleted, name / type / entity_id blanked, type '
+        'deleted, tag units or dimension unit rewritten to a non-unit), validated after every stage and again after close + reopen (rw / ro); plus a '
+        'malformed stream (20 %): empty and closed file, descriptors beyond the rank, more units than dimensions, zero extents, deleted name / ticks / '
+        'dimension_type, many breaches with two blank ids. Per validation: the description (every getter the rules read, for every entity the walk '
+        'visits, plus an enumeration of all sources / sections by index) is parsed, the Lean validator model must predict the same multiset of '
+        '(id, severity, message class), and C19.Rel is evaluated on the implementation\'s own answer. non-trivial = a validation with a parsed '
+        'description; distinct = distinct op text.')
+TRUSTED = ['the getters themselves (id, name, type, createdAt, dataType, dimensionCount, dataExtent, dimensions, ticks, labels, size, unit, '
+           'samplingInterval, offset, position(s), units, references, data, linkType, valueCount, findSources, findSections, util::getDimensionUnit): '
+           'the model starts from what they answer, as printed by the harness op vl_desc',
+           'lean/NixModel/Units.lean as a model of util::isSIUnit / isCompoundSIUnit / isScalable (tied to the library by C18 and by every unit the generator uses here)',
+           'harness raw-HDF5 breach injection (H5Ldelete, attribute / dataset rewrite on the file nix has open)']
+ASSUMPTIONS = ['getters the C++ evaluates outside a try-block (id, name, dataExtent, tag.units, everything the check functors and the walk call) do not throw; '
+               'when one does File::validate itself throws and the run only records it (tag no_description)',
+               'WF: a dimension descriptor\'s index is its position and dimensionCount() is the number of descriptors (holds by construction of the HDF5 backend; '
+               'checked on every description as rule getters_are_consistent)']
 # units: convertible families (same base, same power), further SI / compound units, and strings that are not units
 BASES = {'s': ['s', 'ms', 'us', 'ks'], 'V': ['V', 'mV', 'uV', 'kV'], 'Hz': ['Hz', 'kHz', 'MHz'], 'A': ['A', 'mA', 'nA', 'pA'],
          'm': ['m', 'mm', 'cm', 'km'], 'K': ['K', 'mK'], 'm^2': ['m^2', 'cm^2', 'mm^2'], 'mol': ['mol', 'mmol'], 'S': ['S', 'mS', 'uS']}
@@ -422,3 +446,15 @@ def nontrivial(case, tags):
 
 def signature(f):
     return '%s:%s:%s' % (f.kind, f.tag().split('.')[0], f.rule())
+
+LEVEL_TEXT = ('Lean 4 theorems about an executable model of the validator (must / should / could incl. "getter threw => failed", the check functors of '
+              'checks.cpp with their loops, early exits and accumulators, every rule table of validate.cpp, the walk of File::validate): for every file '
+              'description — any number and nesting of entities, ranks, descriptors, references, units, ticks, any scalar order — every error is attributed '
+              'to an entity that breaches a hard rule (so a conforming file has none, whatever soft rules it breaches); every entity that breaches a hard '
+              'rule, wherever it sits and whatever else is wrong, gets at least one error (counted per id; one lemma per breach kind of the property text); '
+              'soft breaches give exactly the warnings. The same decidable relation is evaluated on what the real File::validate() answers for generated '
+              'files with API-level and raw-HDF5 breaches, and the model must predict the implementation\'s message multiset exactly.')
+LEVEL_NOTE = ('Trusted: Lean kernel; the public getters (the model\'s input is what they answer); the unit-grammar model of C18; harness and raw-HDF5 injection. '
+              'Not modelled: getters throwing outside a try-block (File::validate then throws; recorded, not judged); valid::validate(File); DataFrame, Group and '
+              'data-frame-dimension entities are not visited by File::validate and carry no rules in the property. Known finding K3: a DataArray without unit '
+              'gets no warning although the documentation calls it a soft-rule breach (pinned by TestValidate).')
